@@ -388,6 +388,8 @@ func c14ExecRun(t *rapid.T) {
 	count("sched_steps", int64(sim.Steps))
 	count("sched_switches", int64(sim.Switches))
 	count("sched_contentions", int64(sim.Contentions))
+	count("sched_spawned_goroutines", int64(sim.Spawned))
+	count("sched_leaked_goroutines", int64(sim.Leaked))
 	count("policy_"+opts.Policy.String(), 1)
 	countMax("max_tasks", int64(ntasks))
 	if cacheOn {
@@ -406,6 +408,9 @@ func c14ExecRun(t *rapid.T) {
 		switch err.(type) {
 		case *simrt.Deadlock:
 			violate(t, "C14", "no-deadlock", "deadlock:"+scName, details(err.Error()))
+		case *simrt.Inconclusive:
+			// the code under test waits on real timers, which the simulator does not own
+			count("c14_timer_wait_inconclusive", 1)
 		case *simrt.StepLimit:
 			// a long but finite run cannot be told from a livelock by a step count:
 			// inconclusive, counted, never a violation (blocking is covered by deadlock detection)
